@@ -409,7 +409,14 @@ class Array(AbstractValueWithQuantityObject, Generic[ValuesType]):
             q2 = Quantity.CreateEmpty()
 
         else:
-            values_iteration = _ValueGenerator(p1.values, p2.values)
+            v1, v2 = p1.values, p2.values
+            if getattr(v1, "ndim", 1) == 1 and getattr(v2, "ndim", 1) == 1 and len(v1) != len(v2):
+                # lists and tuples would be silently truncated by zip (and numpy would broadcast a
+                # single element): an operation between sequences of different lengths is an error.
+                raise ValueError(
+                    "Arrays must have the same number of values (%d != %d)" % (len(v1), len(v2))
+                )
+            values_iteration = _ValueGenerator(v1, v2)
             q1 = p1.GetQuantity()
             q2 = p2.GetQuantity()
 
